@@ -440,6 +440,45 @@ with lfrag_slist (l : slist) : bool :=
 with lfrag_clist (l : clist) : bool :=
   match l with CNil => true | CCons c b t => efrag c && lfrag_slist b && lfrag_clist t end.
 
+(* ---------- what the fragment leaves out of the compiler's input ---------- *)
+(* [plain]: no element store `a[i] = e`, and two things the parser never
+   produces: a map literal whose len(Pairs) differs from len(Order) (a key
+   twice: "duplicated map key" is a parse error) and a block as a statement
+   of its own (BlockStatement only occurs as a body).  Every program the
+   compiler accepts and that is plain lies in lfrag (CompileLocProofs.v). *)
+Fixpoint mapok (e : expr) : bool :=
+  match e with
+  | EArr l => mapok_list l
+  | EMap kvs np => Z.eqb np (pairs_len kvs) && mapok_pairs kvs
+  | EUn _ e1 | EGroup e1 => mapok e1
+  | EBin _ _ _ l r | EIndex l r => mapok l && mapok r
+  | ESlice l a b => mapok l && mapok_o a && mapok_o b
+  | _ => true
+  end
+with mapok_list (l : elist) : bool :=
+  match l with ENil => true | ECons e t => mapok e && mapok_list t end
+with mapok_pairs (l : eplist) : bool :=
+  match l with PNil => true | PCons _ e t => mapok e && mapok_pairs t end
+with mapok_o (o : oexpr) : bool :=
+  match o with ONoneE => true | OSome e => mapok e end.
+
+Fixpoint plain_stmt (s : stmt) : bool :=
+  match s with
+  | SDecl _ e => mapok e
+  | SAssign target e => match target with EIndex _ _ => false | _ => true end && mapok e
+  | SIf c b elifs els =>
+      mapok c && plain_slist b && plain_clist elifs && match els with NoElse => true | Else eb => plain_slist eb end
+  | SWhile c b => mapok c && plain_slist b
+  | SForStep _ start stop step b => mapok_o start && mapok stop && mapok_o step && plain_slist b
+  | SForIter _ _ e b => mapok e && plain_slist b
+  | SBlock _ => false
+  | _ => true
+  end
+with plain_slist (l : slist) : bool :=
+  match l with SNil => true | SCons s t => plain_stmt s && plain_slist t end
+with plain_clist (l : clist) : bool :=
+  match l with CNil => true | CCons c b t => mapok c && plain_slist b && plain_clist t end.
+
 (* a whole program: the fragment, and no break outside a loop *)
 Definition lpfrag (p : slist) : bool := lfrag_slist p && nb_slist p.
 
